@@ -413,7 +413,9 @@ Lemma u_lt_lin : forall a b, wf_u a -> wf_u b -> u_lt a b = lin_lt a b.
 Proof.
   intros a b [Ha1 Ha2] [Hb1 Hb2]. unfold u_lt, lin_lt, lin_key, u_contains, lex2. cbn [fst snd].
   destruct ((ust a <=? ust b) && (ust b <=? uen b) && (uen b <=? uen a) &&
-            negb ((ust b <=? ust a) && (ust a <=? uen a) && (uen a <=? uen b))) eqn:E; lia.
+            negb ((ust b <=? ust a) && (ust a <=? uen a) && (uen a <=? uen b))) eqn:E; [lia|].
+  destruct ((ust b <=? ust a) && (ust a <=? uen a) && (uen a <=? uen b) &&
+            negb ((ust a <=? ust b) && (ust b <=? uen b) && (uen b <=? uen a))) eqn:E2; lia.
 Qed.
 
 (* the repaired branch: stable sort by the comparison after the pre-sort = one sort by
@@ -524,7 +526,8 @@ Proof.
   unfold lstart, llen, lmin. cbn [map fold_left fold_right ps pe].
   unfold pair_lt, lex2. cbn [fst snd].
   destruct (((s1 <=? s2) && (s2 <=? e2) && (e2 <=? e1) || false) && true &&
-            negb (((s2 <=? s1) && (s1 <=? e1) && (e1 <=? e2) || false) && true)) eqn:E; lia.
+            negb (((s2 <=? s1) && (s1 <=? e1) && (e1 <=? e2) || false) && true)) eqn:E; [lia|].
+  repeat match goal with |- context [if ?c then _ else _] => destruct c eqn:? end; lia.
 Qed.
 
 Lemma ordered_list_is_lex : forall g, Forall simple g ->
